@@ -691,7 +691,9 @@ class Synth:
             return None
         hi = str(c[1].hi)
         q = self.rng.choice([2, 3, 4])
-        outer = self.rng.choice([f"({hi}) / {q}", f"{hi} / {q}", "2", "1"])
+        # the divisor written in the new outer bound need not be the stride
+        d = q if self.rng.random() < 0.55 else self.rng.choice([2, 3, 4, 8])
+        outer = self.rng.choice([f"({hi}) / {d}", f"{hi} / {d}", f"({hi}) / {d}", f"({hi} + {q - 1}) / {d}", f"({hi}) / {d} + 1", "2", "1"])
         it = str(c[1].iter)
         return [D_node(c[0]), L(outer), L(q), L([it + "o", it + "i"])]
 
@@ -821,7 +823,7 @@ class Synth:
             opts += [f"{it} < {self.rng.choice([1, 2, 3])}", f"{it} == {l.lo}", f"{it} + 1 < {l.hi}"]
         for a in self.ir.args:
             if isinstance(a.type, T.Size):
-                opts += [f"{a.name} > {self.rng.choice([1, 2, 4])}", f"{a.name} % 2 == 0", f"{a.name} == {self.rng.choice([1, 2, 3])}"]
+                opts += [f"{a.name} > {self.rng.choice([1, 2, 4])}", f"{a.name} % 2 == 0", f"{a.name} == {self.rng.choice([1, 2, 3])}", f"{a.name} == {self.rng.choice([2, 3, 4, 6])}"]
             elif isinstance(a.type, T.Bool):
                 opts.append(f"{a.name} == True")
             elif isinstance(a.type, T.Index):
@@ -836,9 +838,10 @@ class Synth:
         if not cond:
             return None
         blk = self.v.parent_block[c[0]]
-        n = self.rng.randint(1, min(2, len(blk) - c[0][-1][1]))
+        rest = len(blk) - c[0][-1][1]
+        n = self.rng.randint(1, min(2, rest)) if self.rng.random() < 0.6 else self.rng.randint(1, rest)
         conds = [cond]
-        if self.rng.random() < 0.3:
+        if self.rng.random() < 0.4:
             c2 = self._cond_str(c[0])
             if c2:
                 conds.append(c2)
